@@ -40,7 +40,7 @@ class Scheduler:
 
     WATCHDOG_S = 60
 
-    def __init__(self, fns, chooser, root, is_yield_op=None, observer=None):
+    def __init__(self, fns, chooser, root, is_yield_op=None, observer=None, pre_hook=None):
         self.workers = [_Worker(i, f) for i, f in enumerate(fns)]
         self.chooser = chooser
         self.root = os.path.abspath(str(root))
@@ -52,6 +52,7 @@ class Scheduler:
         self.flocks = {}             # inode -> thread idx
         self.is_yield_op = is_yield_op or (lambda op: probe.op_is_shared(self.root, op))
         self.observer = observer     # called as observer(sched, worker_idx, op) after each shared op
+        self.pre_hook = pre_hook     # called as pre_hook(op) right before a shared op executes (after the yield)
         self.deadlock = None
         self.hang = None
         self.yield_points = 0
@@ -98,6 +99,8 @@ class Scheduler:
     def pre(self, op):
         if self.is_yield_op(op):
             self.yield_point(op.describe(self.root))
+        if self.pre_hook is not None:
+            self.pre_hook(op)
 
     def post(self, op, error):
         if op.kind == "close-write" and op.fd is not None:
